@@ -196,6 +196,9 @@ func (*parser).parseString [C19, C03]
   requires wfCur(p) && p.module != nil && 1 <= p.cur
   loop 0 invariant 0 <= i && 0 <= w
   loop 0 decreases len(str) - i
+  // after an escape sequence has been replaced by the one character it denotes, scanning goes on with the very next
+  // character (so that an escape directly after an escape is seen)
+  loop 0 end requires r == 92 ==> w == 1
 
 // ================= C03: the token cursor never leaves the token slice =================
 // established by newParser: at least one token, the last one is EOF, the cursor is inside
